@@ -86,6 +86,8 @@ static std::string cpp_encrypt_ctor(int family, int alg, const Bytes &key, const
     Buf k(key), n(nonce);
     std::unique_ptr<ascon::aead> o(MKCTOR[family * 3 + alg](k.p, k.n));
     ascon::byte_array m(pt.begin(), pt.end()), a(ad.begin(), ad.end()), c;
+    // the output array of a session is re-used: it may still hold a longer packet ("resized to the correct size")
+    if (pt.size() % 2) c.assign(pt.size() + 16 + 23, 0x6e);
     o->set_nonce(n.p, n.n);
     o->encrypt(c, m, a);
     out.assign(c.begin(), c.end());
